@@ -300,6 +300,10 @@ func VerifIterReducers(which int, L int) {
 			vAssert(!Equal[int](Slice(items), Slice(items[:L-1])), "equal/length-mismatch")
 		}
 		vAssert(Equal[int](Slice(items), Slice(items), Slice(items)), "equal/three-same")
+		longer := append(append([]int(nil), items...), vNondetInt("extra"))
+		vAssert(!Equal[int](Slice(items), Slice(items), Slice(longer)), "equal/third-longer")
+		vAssert(!Equal[int](Slice(longer), Slice(longer), Slice(items)), "equal/third-shorter")
+		vAssert(Equal[int](Slice(items), Slice(items), Slice(other)) == want, "equal/three-with-symbolic-third")
 	case 2: // Last(n)
 		n := vNondetInt("n")
 		vAssume(vAnd(0 <= n, n <= L+1))
